@@ -107,7 +107,8 @@ def run(ctx):
             ok = ok and any(e in sv.reach_from((false_t, 0), include_start=True) for e in errs)
             # is_empty is applied to the error list of the check
             n_, c_, f_ = deep_sources(sv, t['args'][0])
-            ok = ok and 'compat_errors' in n_
+            # (by provenance: the tested list is component .0 of the tuple the compatibility check returned)
+            ok = ok and any((c or '').endswith('check_version_compatibility') for c in c_)
     C.check(ok, 'C17-MUST-gate', 'set_version|store-only-if-no-incompatibility', 'the file version can be changed although the compatibility check listed incompatibilities (or without running it)', sv.where(st[0]) if st else '',
             sample={'fn': 'ArxmlFile::set_version', 'gate': 'check_version_compatibility(new_ver).0.is_empty()'})
     # set_version writes nothing else
@@ -120,7 +121,12 @@ def run(ctx):
         n1 = deep_sources(sv, sv.blocks[chk[0][0]]['term']['args'][1])[0]
         s_ = sv.blocks[st[0][0]]['stmts'][st[0][1]]
         n2 = deep_sources(sv, s_['rv']['o'])[0] if s_['rv']['k'] == 'use' else set()
-        C.check('new_ver' in n1 and 'new_ver' in n2, 'C17-MUST-gate', 'set_version|checks-the-version-it-stores', 'the version that is checked is not the version that is stored')
+        # the same PARAMETER (whatever its name) is checked and stored
+        from flow import source_locals as _sl
+        pv = {l for l in range(1, sv.argc + 1) if 'AutosarVersion' in (sv.local_ty(l) or '')}
+        l1 = _sl(sv, sv.blocks[chk[0][0]]['term']['args'][1]) & pv
+        l2 = (_sl(sv, s_['rv']['o']) & pv) if s_['rv']['k'] == 'use' else set()
+        C.check(bool(l1) and l1 == l2, 'C17-MUST-gate', 'set_version|checks-the-version-it-stores', 'the version that is checked is not the version that is stored')
     # ArxmlFile::check_version_compatibility delegates to the root element walk with this file
     fc = P.get('ArxmlFile::check_version_compatibility')
     C.check(has(fc, r'impl Element>::check_version_compatibility$') and has(fc, r'AutosarModel>::root_element$'), 'C17-MUST-gate', 'file-check-delegates-to-root-walk', 'ArxmlFile::check_version_compatibility no longer walks from the root element')
